@@ -173,6 +173,9 @@ MUTANTS = [
      "                first_sample = samples[load_steps == 0].reset_index(drop=True)\n"),
     ("c13-revert-one-level-multiindex", "C13", "pylife/core/broadcaster.py",
      "            name = index.names[0]  # `index.name` is None for a MultiIndex with a single level\n", "            name = index.name\n"),
+    ("c13-revert-sd-zero-shapes", "C13", "pylife/materiallaws/woehlercurve.py",
+     "        ND[has_SD] *= np.power(SD[has_SD]/obj_SD[has_SD], -obj_k_1[has_SD])\n",
+     "        ND[has_SD] *= np.power(SD[has_SD]/obj.SD, -obj.k_1)\n"),
     ("c13-revert-collective-copy", "C13", "pylife/stress/collective/load_collective.py",
      "        diffs, obj = self.broadcast(diffs)\n        obj = obj.copy()  # for a scalar the broadcast hands back the collective itself\n",
      "        diffs, obj = self.broadcast(diffs)\n"),
